@@ -1,5 +1,6 @@
 import QcoVerif.Properties.C01
 import QcoVerif.Lemmas.Unroll
+import QcoVerif.Lemmas.TreeDepth
 /-
   C06 — applying repetition modifiers unrolls n back-to-back copies, once.
 
@@ -15,9 +16,17 @@ import QcoVerif.Lemmas.Unroll
      whose nodes are leaf operations, `applyModifiers` leaves count 1 and exactly `max 1 n` times as many leaf nodes, a
      second application adds nothing, and the copy it starts from is a fresh flat block that changes nothing existing
      (Lemmas/Unroll.lean: `add_spec`, `extend_spec`, `copy_flat`, loop invariant `RepInv`).
-  NOT proved: the same for NESTED blocks (`unroll_counts`: occurrences × product of the enclosing counts; needs the argument
-  at every level plus separation between sibling sub-circuits) — evaluated on the implementation and compared with the
-  model on every generated program; the library "n-fold concatenation" clause is false of model and code (finding R5).
+   * **heap level, NESTED blocks** (second half of this file; Lemmas/TreeHeap, TreeCopy, UnrollNested, TreeBuild): on a
+     TREE-shaped heap below `c` (`TreeBelow`: no sharing, ids in range — what the API builds, `fresh_circuit_is_tree`,
+     `add_leaf_keeps_tree`, `add_sub_circuit_keeps_tree`) `applyModifiers` keeps the count-expanded multiset of leaf
+     signatures (`World.expand`: every leaf × product of the enclosing `max 1 count`), leaves every count `fixed 1`, keeps
+     the heap a tree, writes no object outside the tree and not the count registry (`unroll_counts`,
+     `unroll_counts_driver` — no fuel hypothesis: a tree has at most as many levels as the heap has objects,
+     `tree_depth_le_objects`); the unrolled operation listing is that multiset (`unroll_listing`); a second application
+     writes NO existing object at all (`unroll_twice`); the copy it is built on returns a fresh separated tree with the
+     same expansion (`copy_of_tree`) and `extend` keeps separation (`extend_keeps_tree`).
+  NOT proved: the ORDER of the unrolled listing (only the multiset); the library "n-fold concatenation" clause is false
+  of model and code (finding R5).
 -/
 namespace Qco.C06
 
@@ -237,5 +246,219 @@ example : 0 < exFlat.ops.size ∧ (exFlat.op 0).isComp = true ∧ FlatIn exFlat 
 
 /-- non-vacuity of `chain_span`: three copies of a block of duration 2 (16 units) starting at 1. -/
 example : leadSpan [8] (chain 8 16 3) = (0, 48) := by decide
+
+/-! ### the heap-level statement for NESTED blocks
+
+Hypothesis `TreeBelow w f c`: the heap below `c` is a tree of depth ≤ `f` (every node of every composite is an object
+of the heap, the nodes of a composite are pairwise distinct, their sub-trees pairwise disjoint and do not contain the
+composite; every leaf's per-class `copy()` keeps its signature — true of every well-formed operation,
+`leaf_copy_keeps_signature`).  `World.expand w f c` is the multiset (as a list, insertion order) of the leaf signatures
+below `c`, each composite's content repeated `max 1 count` times — i.e. every leaf × the product of the enclosing
+counts.  `AllOnes w f c`: every composite at or below `c` has the count `fixed 1`. -/
+
+/-- every operation the constructors can produce (`C05.Op.WellFormed`) satisfies the leaf hypothesis of `TreeBelow`. -/
+theorem leaf_copy_keeps_signature (o : Op) (h : C05.Op.WellFormed o) : o.CopyStable :=
+  copyStable_of_wellFormed o h
+
+/-- **the general copy lemma.**  On a tree `o` of depth ≤ `f`, `copyObj` (any transfer lookup, any fuel ≥ `f`) returns
+    a FRESH tree: its root is the first new object, every object below it is new, it is a tree in the new heap, it has
+    the kind and repetition strategy of `o` and — up to order — the same count-expanded leaf signatures; it has the same
+    repetition STRATEGY at every level: the expansions agree for EVERY assignment `cnt` of multiplicities to strategies
+    (`World.expandWith`; `World.expand` is the instance `cnt r = max 1 (count of r)`, `expand_is_expandWith`); no object
+    that existed is written (not even a link) and the count registry is kept. -/
+theorem copy_of_tree (w : World) (f o : Nat) (lk : Lookup) (g : Nat) (ht : TreeBelow w f o) (hg : f ≤ g) :
+    (w.copyObj g o lk).2.1 = w.ops.size ∧ w.ops.size < (w.copyObj g o lk).1.ops.size ∧
+    (∀ j, j < w.ops.size → (w.copyObj g o lk).1.op j = w.op j) ∧ (w.copyObj g o lk).1.rreg = w.rreg ∧
+    TreeBelow (w.copyObj g o lk).1 f (w.copyObj g o lk).2.1 ∧
+    (∀ j ∈ (w.copyObj g o lk).1.below f (w.copyObj g o lk).2.1, w.ops.size ≤ j) ∧
+    ((w.copyObj g o lk).1.op (w.copyObj g o lk).2.1).isComp = (w.op o).isComp ∧
+    ((w.op o).isComp = true → ((w.copyObj g o lk).1.op (w.copyObj g o lk).2.1).rep = (w.op o).rep) ∧
+    ((w.copyObj g o lk).1.expand f (w.copyObj g o lk).2.1).Perm (w.expand f o) ∧
+    (∀ cnt : Rep → Nat,
+      ((w.copyObj g o lk).1.expandWith cnt f (w.copyObj g o lk).2.1).Perm (w.expandWith cnt f o)) := by
+  have h := copyObj_tree f w o lk g ht hg
+  exact ⟨h.id, h.size, h.old, h.rreg, h.tree, h.fresh, h.kind, h.rep, h.expand, h.shape⟩
+
+/-- the count-expanded multiset is `expandWith` at the counts currently in force. -/
+theorem expand_is_expandWith (w : World) (f o : Nat) :
+    w.expand f o = w.expandWith (fun r => max 1 (w.repCount r)) f o := expand_eq_expandWith w f o
+
+/-- **`extend` keeps separation.**  Extending a tree `c` with the nodes of a separate tree `other` (as `repeat` does with a
+    fresh copy) leaves `c` a tree whose content is the two contents; only `c` (its graph) and the appended nodes (their
+    links) are written. -/
+theorem extend_keeps_tree (w : World) (f c other : Nat) (hc : TreeBelow w (f + 1) c) (hcc : (w.op c).isComp = true)
+    (ho : TreeBelow w (f + 1) other) (hoc : (w.op other).isComp = true)
+    (hd : ∀ j, j ∈ w.below (f + 1) c → j ∉ w.below (f + 1) other) :
+    TreeBelow (w.extend c other) (f + 1) c ∧
+    ((w.extend c other).content f c).Perm (w.content f c ++ w.content f other) ∧
+    (w.extend c other).ops.size = w.ops.size ∧ (w.extend c other).rreg = w.rreg ∧
+    (∀ j, j ≠ c → j ∉ w.kids other → (w.extend c other).op j = w.op j) ∧
+    (∀ j, j ≠ c → ((w.extend c other).op j).noLink = (w.op j).noLink) :=
+  extend_tree w f c other hc hcc ho hoc hd
+
+/-- **nested counts multiply; all counts are reset to 1; outside operations are untouched.**  For a tree `c` of depth
+    ≤ `f` and recursion fuel `g ≥ f` (the fuel of the copies, `depthFuel`, always suffices: a tree has at most as many
+    levels as the heap has objects, `tree_depth_le_objects`), after `apply_modifiers_to_self`:
+    (a) the count-expanded multiset of leaf signatures below `c` is the one before — every leaf of the original occurs
+        product-of-the-enclosing-counts times, now with all counts 1;
+    (b) every composite at or below `c` has the count `fixed 1`;
+    (c) the heap below `c` is still a tree, made of old objects below `c` and fresh objects;
+    (d) every object that existed and is not below `c` is exactly as it was (link included), the count registry is
+        untouched, no object disappears. -/
+theorem unroll_counts (w : World) (f c g : Nat) (h : TreeBelow w f c) (hg : f ≤ g) :
+    ((w.applyModifiers g c).expand f c).Perm (w.expand f c) ∧
+    AllOnes (w.applyModifiers g c) f c ∧
+    TreeBelow (w.applyModifiers g c) f c ∧
+    (∀ j ∈ (w.applyModifiers g c).below f c, j ∈ w.below f c ∨ w.ops.size ≤ j) ∧
+    (∀ j, j < w.ops.size → j ∉ w.below f c → (w.applyModifiers g c).op j = w.op j) ∧
+    (w.applyModifiers g c).rreg = w.rreg ∧ w.ops.size ≤ (w.applyModifiers g c).ops.size := by
+  have s := applyModifiers_tree_any w f c g h hg
+  exact ⟨s.expand, s.ones, s.tree, s.sub, s.frame, s.rreg, s.size⟩
+
+/-- the same for the call the driver makes (`World.applyModifiers w w.depthFuel c`): no fuel hypothesis at all, any depth
+    bound `f`. -/
+theorem unroll_counts_driver (w : World) (f c : Nat) (h : TreeBelow w f c) :
+    ((w.applyModifiers w.depthFuel c).expand f c).Perm (w.expand f c) ∧
+    AllOnes (w.applyModifiers w.depthFuel c) f c ∧ TreeBelow (w.applyModifiers w.depthFuel c) f c ∧
+    (∀ j ∈ (w.applyModifiers w.depthFuel c).below f c, j ∈ w.below f c ∨ w.ops.size ≤ j) ∧
+    (∀ j, j < w.ops.size → j ∉ w.below f c → (w.applyModifiers w.depthFuel c).op j = w.op j) ∧
+    (w.applyModifiers w.depthFuel c).rreg = w.rreg ∧ w.ops.size ≤ (w.applyModifiers w.depthFuel c).ops.size := by
+  have s := applyModifiers_tree_driver w f c h
+  exact ⟨s.expand, s.ones, s.tree, s.sub, s.frame, s.rreg, s.size⟩
+
+/-- a tree has at most as many levels as the heap has objects: every tree has a depth bound `≤ ops.size`
+    (`< depthFuel`). -/
+theorem tree_depth_le_objects (w : World) (f o : Nat) (h : TreeBelow w f o) :
+    ∃ f0, f0 ≤ f ∧ f0 ≤ w.ops.size ∧ TreeBelow w f0 o := tree_depth_le_size w f o h
+
+/-- **the unrolled operation listing**: after `apply_modifiers_to_self` the operation listing of `c`
+    (`decomposed_operations`, what the exporters and the schedule walk) has, as a multiset of signatures, each leaf of the
+    original repeated product-of-the-enclosing-counts times. -/
+theorem unroll_listing (w : World) (f c g : Nat) (h : TreeBelow w f c) (hc : (w.op c).isComp = true) (hg : f ≤ g) :
+    ((((w.applyModifiers g c).operations c).2).map (fun n => ((w.applyModifiers g c).op n).sig)).Perm
+      (w.expand f c) := by
+  have s := applyModifiers_tree_any w f c g h hg
+  rw [operations_eq_leafListing]
+  exact (expand_ones_leafListing_driver _ f c s.tree s.ones (by rw [s.kind]; exact hc)).symm.trans s.expand
+
+/-- **each kind of operation occurs (content × product of the enclosing counts) times**: the number of occurrences of a
+    signature `s` in the unrolled operation listing is its number of occurrences in the expansion of the original, and
+    that number obeys the multiplication law `counts_multiply` level by level. -/
+theorem unroll_occurrences (w : World) (f c g : Nat) (h : TreeBelow w f c) (hc : (w.op c).isComp = true) (hg : f ≤ g)
+    (s : Sig) :
+    ((((w.applyModifiers g c).operations c).2).map (fun n => ((w.applyModifiers g c).op n).sig)).count s =
+      (w.expand f c).count s :=
+  (unroll_listing w f c g h hc hg).count_eq s
+
+/-- occurrences in the expansion of a composite = `max 1 count` × the occurrences in the expansions of its nodes. -/
+theorem counts_multiply (w : World) (f c : Nat) (s : Sig) (hc : (w.op c).isComp = true) :
+    (w.expand (f + 1) c).count s =
+      max 1 (w.repCount (w.op c).rep) * ((w.kids c).map (fun n => (w.expand f n).count s)).sum :=
+  expand_count w f c s hc
+
+/-- the same for the driver's call. -/
+theorem unroll_listing_driver (w : World) (f c : Nat) (h : TreeBelow w f c) (hc : (w.op c).isComp = true) :
+    ((((w.applyModifiers w.depthFuel c).operations c).2).map
+      (fun n => ((w.applyModifiers w.depthFuel c).op n).sig)).Perm (w.expand f c) := by
+  have s := applyModifiers_tree_driver w f c h
+  rw [operations_eq_leafListing]
+  exact (expand_ones_leafListing_driver _ f c s.tree s.ones (by rw [s.kind]; exact hc)).symm.trans s.expand
+
+/-- **idempotence.**  Applying the modifiers a second time writes NO object that exists (it only allocates the
+    abandoned pristine copies): every object — in particular every graph and every count below `c` — is exactly as the
+    first application left it, so `c` is the same tree with the same objects, the same expansion, all counts `fixed 1`. -/
+theorem unroll_twice (w : World) (f c g g' : Nat) (h : TreeBelow w f c) (hg : f ≤ g) (hg' : f ≤ g') :
+    (∀ j, j < (w.applyModifiers g c).ops.size →
+      ((w.applyModifiers g c).applyModifiers g' c).op j = (w.applyModifiers g c).op j) ∧
+    ((w.applyModifiers g c).applyModifiers g' c).rreg = (w.applyModifiers g c).rreg ∧
+    ((w.applyModifiers g c).applyModifiers g' c).below f c = (w.applyModifiers g c).below f c ∧
+    ((w.applyModifiers g c).applyModifiers g' c).expand f c = (w.applyModifiers g c).expand f c ∧
+    TreeBelow ((w.applyModifiers g c).applyModifiers g' c) f c ∧
+    AllOnes ((w.applyModifiers g c).applyModifiers g' c) f c := by
+  have s := applyModifiers_tree_any w f c g h hg
+  have n := applyModifiers_ones_any (w.applyModifiers g c) f c g' s.tree s.ones (Or.inl hg')
+  obtain ⟨k1, k2, k3, k4⟩ := n.keeps s.tree
+  exact ⟨n.old, n.rreg, k2, k3, k1, k4 s.ones⟩
+
+/-- idempotence for the two calls the driver makes (each with the `depthFuel` of its own heap). -/
+theorem unroll_twice_driver (w : World) (f c : Nat) (h : TreeBelow w f c) :
+    (∀ j, j < (w.applyModifiers w.depthFuel c).ops.size →
+      ((w.applyModifiers w.depthFuel c).applyModifiers (w.applyModifiers w.depthFuel c).depthFuel c).op j =
+        (w.applyModifiers w.depthFuel c).op j) ∧
+    ((w.applyModifiers w.depthFuel c).applyModifiers (w.applyModifiers w.depthFuel c).depthFuel c).expand f c =
+      (w.applyModifiers w.depthFuel c).expand f c ∧
+    AllOnes ((w.applyModifiers w.depthFuel c).applyModifiers (w.applyModifiers w.depthFuel c).depthFuel c) f c := by
+  have s := applyModifiers_tree_driver w f c h
+  have n := applyModifiers_ones_any (w.applyModifiers w.depthFuel c) f c
+    (w.applyModifiers w.depthFuel c).depthFuel s.tree s.ones (Or.inr (by unfold World.depthFuel; omega))
+  obtain ⟨_, _, k3, k4⟩ := n.keeps s.tree
+  exact ⟨n.old, k3, k4 s.ones⟩
+
+/-! #### API-built heaps are trees -/
+
+/-- a fresh circuit (`DeclarativeCircuit()`) is a tree, and creating it writes nothing that exists. -/
+theorem fresh_circuit_is_tree (w : World) (rep : Rep) (f : Nat) :
+    (w.newCircuit rep).2 = w.ops.size ∧ TreeBelow (w.newCircuit rep).1 (f + 1) (w.newCircuit rep).2 ∧
+    (∀ j, j < w.ops.size → (w.newCircuit rep).1.op j = w.op j) := by
+  obtain ⟨h1, h2, _, h4, _⟩ := newCircuit_tree w rep f
+  exact ⟨h1, h4, h2.old⟩
+
+/-- `add` of a freshly created leaf operation keeps the tree and appends the operation's signature to the content. -/
+theorem add_leaf_keeps_tree (w : World) (f c : Nat) (op : Op) (ht : TreeBelow w (f + 2) c)
+    (hcomp : (w.op c).isComp = true) (hl : op.isComp = false) (hs : op.CopyStable) :
+    TreeBelow ((w.newOp op).1.add c (w.newOp op).2) (f + 2) c ∧
+    ((w.newOp op).1.add c (w.newOp op).2).content (f + 1) c = w.content (f + 1) c ++ [op.sig] ∧
+    (∀ j, j < w.ops.size → j ≠ c → ((w.newOp op).1.add c (w.newOp op).2).op j = w.op j) := by
+  obtain ⟨h1, _, _, h4, h5, _⟩ := addLeaf_tree w f c op ht hcomp hl hs
+  exact ⟨h1, h4, h5⟩
+
+/-- `add_sub_circuit` (which copies the sub-circuit) keeps the tree and appends the sub-circuit's expansion. -/
+theorem add_sub_circuit_keeps_tree (w : World) (f c sub : Nat) (ht : TreeBelow w (f + 1) c)
+    (hcomp : (w.op c).isComp = true) (hs : TreeBelow w f sub) (hf : f ≤ w.depthFuel) :
+    TreeBelow (w.addSub c sub).1 (f + 1) c ∧
+    ((w.addSub c sub).1.content f c).Perm (w.content f c ++ w.expand f sub) ∧
+    (∀ j, j < w.ops.size → j ≠ c → (w.addSub c sub).1.op j = w.op j) := by
+  obtain ⟨h1, _, _, h4, h5, _⟩ := addSub_tree w f c sub ht hcomp hs hf
+  exact ⟨h1, h4, h5⟩
+
+/-- the depth bound of `TreeBelow` may be increased without changing the objects below or the expansion. -/
+theorem tree_depth_mono (w : World) (f o d : Nat) (h : TreeBelow w f o) :
+    TreeBelow w (f + d) o ∧ w.below (f + d) o = w.below f o ∧ w.expand (f + d) o = w.expand f o := h.mono d
+
+/-! #### non-vacuity: a heap built with the model's builder, nesting depth 2 below `top`, counts 2 and 3
+
+`exG` (Lemmas/TreeBuild.lean) is  top = Circuit(); mid = Circuit(repetitions 2); inner = Circuit(repetitions 3);
+inner.add(Rx180(0)); mid.add(DispersiveMeasure(0)); mid.add_sub_circuit(inner); top.add_sub_circuit(mid), built with
+`newCircuit / newOp / add / addSub`; `TreeBelow` is derived from the constructor lemmas above. -/
+
+/-- hypotheses of `unroll_counts(_driver)`, `unroll_listing(_driver)`, `unroll_twice(_driver)`, `copy_of_tree`,
+    `tree_depth_mono`, `tree_depth_le_objects` (tree of depth bound 4 below `top = exF.2`, inside the fuel, `top` is a
+    composite). -/
+example : TreeBelow exG.1 4 exF.2 ∧ 4 ≤ exG.1.depthFuel ∧ (exG.1.op exF.2).isComp = true :=
+  ⟨exG_tree.1, exG_tree.2.1, exG_tree.2.2.1⟩
+
+/-- … and it is not trivial: its expansion is 2 × (measure, 3 × Rx180), so by `unroll_listing` the unrolled operation
+    listing of `top` consists of exactly 2 measurements and 6 Rx180 gates. -/
+example : ((((exG.1.applyModifiers exG.1.depthFuel exF.2).operations exF.2).2).map
+      (fun n => ((exG.1.applyModifiers exG.1.depthFuel exF.2).op n).sig)).Perm
+    [exM.sig, exX.sig, exX.sig, exX.sig, exM.sig, exX.sig, exX.sig, exX.sig] :=
+  (unroll_listing_driver exG.1 4 exF.2 exG_tree.1 exG_tree.2.2.1).trans exG_tree.2.2.2
+
+/-- hypotheses of `extend_keeps_tree`: in `exD`, `mid` (content [measure]) and `inner` (content [Rx180]) are separate
+    trees. -/
+example : TreeBelow exD 3 exC.2 ∧ (exD.op exC.2).isComp = true ∧ TreeBelow exD 3 exA.2 ∧
+    (exD.op exA.2).isComp = true ∧ (∀ j, j ∈ exD.below 3 exC.2 → j ∉ exD.below 3 exA.2) := exD_separate
+
+/-- hypotheses of `add_leaf_keeps_tree` (`inner`, still empty, and an `Rx180`) and of `add_sub_circuit_keeps_tree`
+    (`mid` and `inner` in `exD`). -/
+example : TreeBelow exA.1 2 exA.2 ∧ (exA.1.op exA.2).isComp = true ∧ exX.isComp = false ∧ exX.CopyStable :=
+  ⟨(newCircuit_tree ({} : World) (.fixed 3) 1).2.2.2.1, (newCircuit_tree ({} : World) (.fixed 3) 1).2.2.2.2.1,
+    by decide, exX_stable⟩
+
+example : TreeBelow exD 3 exC.2 ∧ (exD.op exC.2).isComp = true ∧ TreeBelow exD 2 exA.2 ∧ 2 ≤ exD.depthFuel :=
+  ⟨exD_facts.2.2.2.2.1, exD_facts.2.2.2.2.2.1, exD_facts.2.2.1, by unfold World.depthFuel; omega⟩
+
+/-- hypothesis of `leaf_copy_keeps_signature`: see the examples of `C05.Op.WellFormed` in Properties/C05.lean; e.g. -/
+example : C05.Op.WellFormed exM := by simp [C05.Op.WellFormed, exM, Cls.defaultDur]
 
 end Qco.C06
